@@ -1,6 +1,6 @@
 """C15 -- cycle detection is exact; topological order is a valid linear extension."""
 
-from . import graphrules
+from . import graphrules, common, dotrules
 
 
 def check(ctx, rep):
@@ -17,3 +17,9 @@ def check(ctx, rep):
     graphrules.order_sound(ctx, rep, "R15.1", "R15.2", "R15.3")
     graphrules.progress_or_raise(ctx, rep, "R15.4")
     graphrules.check_cycles_rules(ctx, rep, "R15.5")
+    dotrules.numbering(ctx, rep, "R15.5n")
+    p, r = ctx.prog, ctx.roles
+    funcs = [p.supplier(r.sched, n) for n in ('topological_order', 'check_cycles', 'list', 'entry_jobs', '_set_sched_ids')] + \
+            [p.supplier(c, 'check_cycles') for c in r.nestable]
+    common.job_truthiness(ctx, rep, "R15.6", funcs)
+    common.no_state_across_calls(ctx, rep, "R15.7", funcs + [p.supplier(r.sched, '__init__')])
